@@ -47,6 +47,9 @@ type Step struct {
 	Reuse bool `json:"reuse,omitempty"`
 	// Cancel: the context ends because its deadline expires (DeadlineExceeded) instead of a cancel
 	DL bool `json:"dl,omitempty"`
+	// CHeader directly after the SendH that sends the headers: the client is already blocked in Header()
+	// when the handler calls SendHeader (the step is where Header() returns)
+	Early bool `json:"early,omitempty"`
 }
 
 type Scenario struct {
@@ -882,9 +885,13 @@ func runScenario(sc Scenario, srv *scriptSrv, cc grpc.ClientConnInterface) (tr T
 	}
 
 	// ---- steps ----
-	for _, st := range sc.Steps {
+	for i, st := range sc.Steps {
 		if d.stuck {
 			break
+		}
+		if st.K == "SendH" && i+1 < len(sc.Steps) && sc.Steps[i+1].K == "CHeader" && sc.Steps[i+1].Early && !d.gone {
+			d.startC("header", 0) // blocks until the headers are there
+			time.Sleep(300 * time.Microsecond)
 		}
 		switch st.K {
 		case "C2S":
@@ -947,7 +954,9 @@ func runScenario(sc Scenario, srv *scriptSrv, cc grpc.ClientConnInterface) (tr T
 				d.waitS()
 			}
 		case "CHeader":
-			d.startC("header", 0)
+			if !st.Early {
+				d.startC("header", 0)
+			}
 			d.waitC()
 		case "Ret":
 			if d.gone {
